@@ -34,6 +34,7 @@ Un(a) == { "[" \o a \o "]",
            "(" \o a \o " as [$p] ?// $p | [$p])",
            "(" \o a \o " as {a: $p} ?// [$p] ?// $q | [$p, $q])",
            "(" \o a \o " as {$a, b: [$q]} ?// $r | [$a, $q, $r])",
+           "(({a: 1, b: 2}, [3], {a: 4, b: [5]}) as {$a, b: [$q]} ?// [$r] ?// $s | [$a, $q, $r, $s], " \o a \o ")",
            "([{b: 1}, [2], 3, {a: [4]}][] as [$p] ?// {b: $q} ?// {a: [$r]} | [$p, $q, $r], " \o a \o ")",
            "(.[]? as [$p, $q] ?// {a: $r} ?// $s | [$p, $q, $r, $s] | " \o a \o ")" }
 
